@@ -14,8 +14,10 @@ S — specification for C16 (URI ↔ options), written from RFC 3986 (§2.1 perc
 --   splitter called directly with a malformed escape returns is left open (libcoap drops the segment resp. keeps
 --   the '%'); such inputs are still run: the model must agree with the code and nothing may be read out of bounds.
 -- SPEC DECISION D16b: coap_split_path / coap_split_query document a minimum output buffer (input length + a header
---   per segment).  S fixes their result for buffers of at least `length + 3·segments` bytes; for smaller buffers
---   only memory safety and the agreement of model and code are checked (libcoap omits what does not fit).
+--   per segment).  S fixes their result for buffers of at least `length + 3·segments` bytes (proved enough:
+--   `length + 2·segments + 1`; the documented `length + 2·segments` if no decoded segment reaches 269 bytes); for
+--   smaller buffers only memory safety (nothing is written past the buffer) and the agreement of model and code are
+--   demanded: libcoap omits what does not fit.
 -- SPEC DECISION D16c: '.' and '..' are resolved as RFC 3986 §5.2.4 does on complete segments ("%2E" ≡ "."),
 --   except that a *final* "." / ".." leaves no trailing empty segment (the property asks only that dot segments
 --   are resolved and never emitted).  A ".." with nothing before it is ignored (as in §5.2.4).
@@ -24,6 +26,11 @@ S — specification for C16 (URI ↔ options), written from RFC 3986 (§2.1 perc
 -- SPEC DECISION D16e: a URI whose authority is directly followed by '?' ("coap://h?q", empty path) is well formed
 --   (RFC 3986 §3.3 path-abempty).  Input after '#' is not part of path or query (§3.5); coap_split_uri itself does
 --   not know '#': a fragment stays inside the path / query string and is cut off by the component splitters.
+-- SPEC DECISION D16f: a URI whose authority starts with "%2F" / "%2f" (libcoap's notation for a Unix domain socket in
+--   place of a host; also a bracketed literal starting with '/') is outside S (`unixAuthority`, `unixHost`).
+-- SPEC DECISION D16g: Uri-Host = the host percent-decoded, then in ASCII lower case; it is omitted iff the URI has no
+--   authority or the host text (an IPv6 zone identifier not counting) equals the text of the destination address;
+--   Uri-Port is omitted iff the port is the scheme's default (see the section on RFC 7252 §6.4 steps 5–9 below).
 -/
 namespace Coap.Spec.Uri
 open Coap
